@@ -46,22 +46,30 @@ void harness(void)
     const struct vp_table *d = &in.t;
     VP_ASSUME(vp_desc_wellformed(d));
     for (unsigned i = 0; i < NAREA; ++i) {
-        VP_ASSUME(d->a[i].base <= 0x7fffff00u);
+        VP_ASSUME(d->a[i].base <= VP_ADDR_LIMIT);
 #ifdef MODE_ITER
         VP_ASSUME(d->a[i].has_read == 1);
 #endif
     }
     for (unsigned i = 0; i < NREG; ++i)
-        VP_ASSUME(d->e[i].address <= 0x7fffff00u);
+        VP_ASSUME(d->e[i].address <= VP_ADDR_LIMIT);
     VP_ASSUME(ref_layout_ok(d));
     vp_link_direct(d);
-    memcpy(vp_mem, in.mem, sizeof vp_mem);
+    for (unsigned a = 0; a < NAREA; ++a)
+        for (unsigned w = 0; w < AWORDS; ++w)
+            vp_mem[a][w] = in.mem[a][w];
     struct vp_snapshot before;
     vp_snap(&before);
 
 #if defined(MODE_READ)
+#ifdef NFIX
+    /* the driver enumerates the read length: one query per n, buffer of exactly n words */
+    VP_ASSUME(in.n == NFIX);
+    const unsigned n = NFIX;
+#else
     VP_ASSUME(in.n <= NMAX);
     const unsigned n = in.n;
+#endif
 #ifdef VP_REPLAY
     /* exact-size heap block with a guard word on each side (ASan red zones) */
     RegisterAtom *blk = malloc(n ? n * sizeof(RegisterAtom) : 1);
@@ -70,7 +78,8 @@ void harness(void)
     memcpy(arr, in.bufinit, sizeof arr);
 #else
     RegisterAtom arr[NMAX];
-    memcpy(arr, in.bufinit, sizeof arr);
+    for (unsigned i = 0; i < NMAX; ++i)
+        arr[i] = in.bufinit[i];
     RegisterAtom *blk = arr + (NMAX - n);
 #endif
     RegisterAccess r = register_block_read(&vp_t, in.addr, n, blk);
@@ -109,14 +118,23 @@ void harness(void)
             VP_ASSERT(arr[i] == in.bufinit[i], "C03.read.nothing-written-before-buffer");
 #endif
     VP_ASSERT(vp_mem_equal(&before), "C03.read.table-unchanged");
-    VP_WITNESS(r.code == REG_ACCESS_SUCCESS && n == NMAX && d->nareas == NAREA &&
+#if !defined(NFIX) || NFIX >= 3
+    VP_WITNESS(r.code == REG_ACCESS_SUCCESS && d->nareas == NAREA &&
                    ref_area_of(d, in.addr) != ref_area_of(d, in.addr + n - 1) &&
                    in.addr != d->a[ref_area_of(d, in.addr)].base &&
                    !ref_area_block_readable(&d->a[ref_area_of(d, in.addr)]),
                "C03.read.mid-area-start-nonreadable-spanning.reach");
-    VP_WITNESS(r.code == REG_ACCESS_NOENTRY && n >= 3 && first_hole == in.addr + 2, "C03.read.hole-later.reach");
-    VP_WITNESS(r.code == REG_ACCESS_SUCCESS && n >= 2 && d->a[ref_area_of(d, in.addr)].custom,
+    VP_WITNESS(r.code == REG_ACCESS_NOENTRY && first_hole == in.addr + 2, "C03.read.hole-later.reach");
+#endif
+#if !defined(NFIX) || NFIX >= 1
+    VP_WITNESS(r.code == REG_ACCESS_SUCCESS && d->a[ref_area_of(d, in.addr)].custom &&
+                   in.addr > d->a[ref_area_of(d, in.addr)].base,
                "C03.read.custom-area.reach");
+    VP_WITNESS(r.code == REG_ACCESS_NOENTRY && first_hole == in.addr && in.addr > 0x80000000u,
+               "C03.read.unmapped-high-address.reach");
+#else
+    VP_WITNESS(r.code == REG_ACCESS_SUCCESS && ref_area_of(d, in.addr) < 0, "C03.read.zero-length-in-hole.reach");
+#endif
 #ifdef VP_REPLAY
     free(blk);
 #endif
